@@ -222,6 +222,8 @@ class ModelProperty(engine.Property):
         """What of the state this property compares (default: all of it, as is)."""
         return state
 
+    refusal_name = "list-level-call-on-two-ended-link-refused"
+
     def may_be_rejected(self, st, op):
         """Calls the property defines no effect for: accepted or refused, never half-done."""
         return False
@@ -271,7 +273,7 @@ class ModelProperty(engine.Property):
             st.model.objs = saved
             st.model.alt = None
             expected = M.Raises()
-            st.stats["relaxation:list-level-call-on-two-ended-link-refused"] += 1
+            st.stats["relaxation:" + self.refusal_name] += 1
         st.stats["op:" + op["op"]] += 1
         if "exc" in out:
             st.stats["fault:failing-call"] += 1
